@@ -94,9 +94,9 @@ def coo_local():
         tol = 'tolocal_Cmove'
     else:
         raise TranslateError('COOData.tolocal: unknown reshape expression: ' + e)
-    facet = ('if basis is not None:\n    out = np.zeros((basis.mesh.nfacets,) + local.shape[1:])\n    out[basis.find] = local\n'
-             '    local = np.sum(out[basis.mesh.t2f], axis=0)')
-    if t2.src(body[2]) != facet or t2.src(body[3]) != 'return local':
+    facet = [('if basis is not None:\n    out = np.zeros((basis.mesh.nfacets,) + local.shape[1:]' + dt + ')\n    out[basis.find] = local\n'
+              '    local = np.sum(out[basis.mesh.t2f], axis=0)') for dt in ('', ', dtype=local.dtype')]
+    if t2.src(body[2]) not in facet or t2.src(body[3]) != 'return local':
         raise TranslateError('COOData.tolocal tail: ' + t2.src(body[2])[:200])
     fl = t2.find_def(tree, 'fromlocal', 'COOData')
     ret = t2.only(_nodoc(fl.body), 'COOData.fromlocal body')
@@ -125,12 +125,19 @@ def coo_dot():
     fn = t2.find_def(t2.parse(COO), 'dot', 'COOData')
     if [a.arg for a in fn.args.args] != ['self', 'x', 'D']:
         raise TranslateError('COOData.dot signature')
-    srcs = [t2.src(s) for s in _nodoc(fn.body)]
-    want = ['y = self.data * x[self.indices[1]]', 'z = np.zeros_like(x)', 'np.add.at(z, self.indices[0], y)',
-            'if D is not None:\n    z[D] = x[D]', 'return z']
-    if srcs != want:
+    srcs = [_norm(t2.src(s)) for s in _nodoc(fn.body)]
+    if len(srcs) != 5 or srcs[0] != 'y = self.data * x[self.indices[1]]' or srcs[2] != 'np.add.at(z, self.indices[0], y)' \
+            or srcs[3] != 'if D is not None: z[D] = x[D]' or srcs[4] != 'return z':
         raise TranslateError('COOData.dot: ' + repr(srcs))
-    return 'Definition gen_coo_dot (c : coo R) (x : list R) (D : list nat) := coo_dot R rO radd rmul c x D.'
+    import re
+    if srcs[1] == 'z = np.zeros_like(x)':
+        rows = 'length x'                                  # square data only
+    elif re.fullmatch(r'z = np\.zeros\(self\.shape\[0\](, dtype=[^()]*(\([^()]*\))?[^()]*)?\)', srcs[1]):
+        rows = 'nth 0 (c_shape c) 0'                       # rectangular data
+    else:
+        raise TranslateError('COOData.dot: allocation of the result: ' + srcs[1])
+    return (f'Definition gen_dot_rows (c : coo R) (x : list R) : nat := {rows}.\n'
+            'Definition gen_coo_dot (c : coo R) (x : list R) (D : list nat) := coo_dot_n R rO radd rmul (gen_dot_rows c x) c x D.')
 
 
 # ------------------------------------------------------------------------------------------ ElementVector
@@ -398,7 +405,7 @@ HEADER2 = '''(* GENERATED by vlib/c19_translate.py from element_composite.py, ab
    of the implementation under test — do not edit *)
 From Coq Require Import List Arith Bool.
 Import ListNotations.
-Require Import Model.C19_Blocks Model.C19_Composite.
+Require Import Model.C01_Assembly Model.C19_Blocks Model.C19_Composite Model.C19_CompBasis.
 
 '''
 
@@ -442,4 +449,61 @@ def vector_counts():
 
 def translate_comp():
     bfun_counts()
-    return HEADER2 + deduce_bfun() + '\n\n' + split_indices() + '\n\n' + dofs_init() + '\n\n' + vector_counts() + '\n'
+    return HEADER2 + deduce_bfun() + '\n\n' + split_indices() + '\n\n' + dofs_init() + '\n\n' + vector_counts() + '\n\n' + composite_basis() + '\n'
+
+
+# ------------------------------------------------------------------------------------------ CompositeBasis
+CBS = 'skfem/assembly/basis/composite_basis.py'
+
+
+def composite_basis():
+    tree = t2.parse(CBS)
+    init = t2.find_def(tree, '__init__', 'CompositeBasis')
+    body = [_norm(t2.src(x)) for x in _nodoc(init.body)]
+    if 'nelem = bases[0].element_dofs.shape[1]' not in body or 'nqp = len(bases[0].W)' not in body:
+        raise TranslateError('CompositeBasis.__init__: reference counts: ' + repr(body[:2]))
+    loop = t2.only([x for x in _nodoc(init.body) if isinstance(x, ast.For)], 'CompositeBasis.__init__ loop')
+    if t2.src(loop.target) != 'basis' or t2.src(loop.iter) != 'bases':
+        raise TranslateError('CompositeBasis.__init__ loop header')
+    cond = {}
+    for st in loop.body:
+        if not (isinstance(st, ast.If) and len(st.body) == 1 and isinstance(st.body[0], ast.Raise) and not st.orelse):
+            raise TranslateError('CompositeBasis.__init__ check: ' + t2.src(st)[:100])
+        test = _norm(t2.src(st.test))
+        exc = t2.src(st.body[0].exc.func)
+        if test.endswith('!= nqp') and exc == 'ValueError':
+            who = {'len(basis.W) != nqp': 'basis', 'len(bases[0].W) != nqp': 'b0'}.get(test)
+            cond['nq'] = who
+        elif test.endswith('!= nelem') and exc == 'ValueError':
+            who = {'basis.element_dofs.shape[1] != nelem': 'basis', 'bases[0].element_dofs.shape[1] != nelem': 'b0'}.get(test)
+            cond['nt'] = who
+        elif test == 'isinstance(basis.elem, ElementComposite)' and exc == 'NotImplementedError':
+            continue
+        else:
+            raise TranslateError('CompositeBasis.__init__ check: ' + test)
+    if cond.get('nq') is None or cond.get('nt') is None:
+        raise TranslateError('CompositeBasis.__init__: quadrature / element-count checks: ' + repr(cond))
+
+    def prop(name, want):
+        fn = t2.find_def(tree, name, 'CompositeBasis')
+        got = [_norm(t2.src(x)) for x in _nodoc(fn.body)]
+        if got != want:
+            raise TranslateError(f'CompositeBasis.{name}: ' + repr(got)[:400])
+    prop('dx', ['return self.bases[0].dx'])
+    prop('nelems', ['return self.bases[0].nelems'])
+    prop('X', ['return self.bases[0].X'])
+    prop('element_dofs', ['if self._element_dofs is None: dofs = [] offset = 0 for basis in self.bases: dofs.append(basis.element_dofs + offset) '
+                          'if not self.equal_dofnum: offset += basis.N self._element_dofs = np.vstack(dofs)', 'return self._element_dofs'])
+    prop('basis', ['if self._basis is None: bases = [] M = len(self.bases) for i in range(M): for j in range(len(self.bases[i].basis)): tmp = [] '
+                   'for k in range(M): if k == i: tmp.append(self.bases[i].basis[j][0]) else: tmp.append(self.bases[k].basis[0][0].zeros()) '
+                   'bases.append(tuple(tmp)) self._basis = bases', 'return self._basis'])
+    prop('N', ['if self.equal_dofnum: return self.bases[0].N', 'N = 0', 'for basis in self.bases: N += basis.N', 'return N'])
+    prop('Nbfun', ['Nbfun = 0', 'for basis in self.bases: Nbfun += basis.Nbfun', 'return Nbfun'])
+    return ('(* CompositeBasis: constructor checks as read from the source, tables as in Model.C19_CompBasis *)\n'
+            'Section GenCB.\n  Variable R : Type.\n  Variables V VC : Type.\n  Variable inj : nat -> V -> VC.\n'
+            '  Definition gen_composite_basis (b0 : basis R V) (rest : list (basis R V)) (eq : bool) : option (basis R VC) :=\n'
+            '    let bs := b0 :: rest in\n'
+            f'    if forallb (fun basis => (bnq {cond["nq"]} =? bnq b0) && (bnelems {cond["nt"]} =? bnelems b0)) bs then\n'
+            '      Some (mkBasis (cb_N R V b0 bs eq) (cb_Nbfun R V bs) (bnelems b0) (bnq b0) (cb_edofs R V b0 bs eq)\n'
+            "                    (fun i e q => let '(n, j) := nth i (cb_funs R V b0 bs) (0, 0) in inj n (bB (nth n bs b0) j e q))\n"
+            '                    (bdx b0))\n    else None.\nEnd GenCB.')
